@@ -17,6 +17,7 @@ import (
 	"log/slog"
 	mrand "math/rand"
 	"os"
+	osexec "os/exec"
 	"path/filepath"
 	"regexp"
 	"strconv"
@@ -132,8 +133,16 @@ func TestZZVShellDecision(t *testing.T) {
 			stub[cmd] = zzvStub(filepath.Join(root, "bin", cmd), zzvStubRecord)
 		}
 	}
+	// "stub present" = the exact command string resolves to an executable the way os/exec resolves it
+	for cmd := range stub {
+		_, lerr := osexec.LookPath(cmd)
+		stub[cmd] = cmd != "" && lerr == nil
+	}
 	nstart := 0
-	for _, v := range in.Cases {
+	var mu sync.Mutex
+	var wg sync.WaitGroup
+	jobs := make(chan zzvShellVec)
+	one := func(v zzvShellVec) {
 		cfg := Config{Enabled: v.C.Enabled}
 		for _, w := range v.C.Wl {
 			cfg.Whitelist = append(cfg.Whitelist, zzvCmdStr(root, w))
@@ -141,8 +150,9 @@ func TestZZVShellDecision(t *testing.T) {
 		if v.C.PwCfg == "set" {
 			cfg.PasswordHash = string(hash)
 		}
-		meta := func() *ShellMeta {
-			m := &ShellMeta{Command: zzvCmdStr(root, v.C.Cmd)}
+		// the case id reaches the stub through the request's environment (per process, so cases can run in parallel)
+		meta := func(tag string) *ShellMeta {
+			m := &ShellMeta{Command: zzvCmdStr(root, v.C.Cmd), Env: map[string]string{"ZZV_CASE": fmt.Sprintf("c%d-%s", v.ID, tag)}}
 			for _, a := range v.C.Args {
 				m.Args = append(m.Args, zzvStr(a))
 			}
@@ -157,17 +167,16 @@ func TestZZVShellDecision(t *testing.T) {
 			return m
 		}
 		rec := map[string]any{"id": v.ID, "stub": stub[zzvCmdStr(root, v.C.Cmd)]}
-		os.Setenv("ZZV_CASE", fmt.Sprintf("c%d-s", v.ID))
 		ex := NewExecutor(cfg)
-		s, err := ex.NewSession(context.Background(), meta())
+		s, err := ex.NewSession(context.Background(), meta("s"))
 		started := false
 		if err == nil {
 			if serr := s.Start(); serr == nil {
 				started = true
 				select {
 				case <-s.Done():
-				case <-time.After(20 * time.Second):
-					t.Fatalf("zzv: stub of case %d did not exit", v.ID)
+				case <-time.After(60 * time.Second):
+					t.Errorf("zzv: stub of case %d did not exit", v.ID)
 				}
 			} else {
 				rec["start_err"] = serr.Error()
@@ -180,8 +189,7 @@ func TestZZVShellDecision(t *testing.T) {
 		rec["session"] = started
 		rec["active_after"] = ex.ActiveSessions()
 		if v.PTY {
-			os.Setenv("ZZV_CASE", fmt.Sprintf("c%d-p", v.ID))
-			m := meta()
+			m := meta("p")
 			m.TTY = &TTYSettings{Rows: 24, Cols: 80}
 			ex2 := NewExecutor(cfg)
 			p, perr := ex2.NewPTYSession(context.Background(), m)
@@ -191,8 +199,8 @@ func TestZZVShellDecision(t *testing.T) {
 				go func() { io.Copy(io.Discard, p); p.Wait(); close(done) }()
 				select {
 				case <-done:
-				case <-time.After(20 * time.Second):
-					t.Fatalf("zzv: pty stub of case %d did not exit", v.ID)
+				case <-time.After(60 * time.Second):
+					t.Errorf("zzv: pty stub of case %d did not exit", v.ID)
 				}
 				p.Close()
 				ex2.ReleaseSession()
@@ -202,11 +210,27 @@ func TestZZVShellDecision(t *testing.T) {
 			rec["pty"] = ptyStarted
 			rec["pty_active_after"] = ex2.ActiveSessions()
 		}
+		mu.Lock()
 		if started {
 			nstart++
 		}
+		mu.Unlock()
 		zzvEmit("case", rec)
 	}
+	for w := 0; w < zzvEnvInt("ZZV_WORKERS", 6); w++ {
+		wg.Add(1)
+		go func() {
+			defer wg.Done()
+			for v := range jobs {
+				one(v)
+			}
+		}()
+	}
+	for _, v := range in.Cases {
+		jobs <- v
+	}
+	close(jobs)
+	wg.Wait()
 	// processes that really ran, as recorded by the stubs themselves
 	b, _ := os.ReadFile(mark)
 	ran := map[string]int{}
